@@ -72,6 +72,8 @@ def _edit_name(name, how):
         return name[:-1]
     if how == "swapcase" and name.swapcase() != name:
         return name.swapcase()
+    if how.startswith("internal:"):
+        return how.split(":", 1)[1]  # a name that exists inside the fit (a node of its computation graph) but is not one of its parameters
     return "no_such_" + name
 
 
@@ -356,7 +358,7 @@ def strat_parameters(draw, tier="quick"):
         spec["sources"].insert(0, {"name": "base", "ref": "data", "axis": "y" if t == "xy" else None, "kind": "simple", "scalar": True, "err": [spec["sigma"]] * 8, "rho": 0.0, "relative": False,
                                    "enabled": True})
     return {"spec": spec, "bad": bad, "fit_before": draw(st.booleans()), "set_before": draw(st.booleans()), "pos": draw(st.integers(0, 7)), "k": draw(st.integers(1, 3)),
-            "sign": draw(st.sampled_from([-1, 1])), "name_edit": draw(st.sampled_from(["append", "drop", "swapcase", "other"])), "asym_eps": draw(st.sampled_from([1e-3, 0.1])), "mat_scale": draw(st.sampled_from([1.0, 1.0, 1e-4, 1e-8, 1e-12, 1e4])),
+            "sign": draw(st.sampled_from([-1, 1])), "name_edit": draw(st.sampled_from(["append", "drop", "swapcase", "other", "internal:y_data", "internal:cost", "internal:total_error", "internal:parameter_values", "internal:model", "internal:data"])), "asym_eps": draw(st.sampled_from([1e-3, 0.1])), "mat_scale": draw(st.sampled_from([1.0, 1.0, 1e-4, 1e-8, 1e-12, 1e4])),
             "diag_dev": draw(st.sampled_from([1e-3, -1e-3, 0.1, -0.5])), "poisson_bad": draw(st.sampled_from(["negative", "non_integer"])), "mixed_first": draw(st.booleans()),
             "values": draw(st.lists(st.floats(-0.3, 0.3), min_size=4, max_size=4)), "suffix_fit": draw(st.booleans()), "data_as": draw(st.sampled_from(["array", "container"]))}
 
